@@ -16,6 +16,8 @@
                         (source, tag, record, did the Set succeed); snap = decoded store afterwards
      EPAck s n ks       the plugin received the ack with tag n on its stream
      ESendFail s n      an injected transient stream.Send failure for the ack with tag n
+     ESendHeld s n      stream.Send of the ack with tag n has begun and is parked in the plugin stream
+                        (the plugin has not consumed it yet); it ends in EPAck or in a failed send
      ESrcErr s          an error surfaced on Source.Errors()
      ETdBegin s / ETdCancel s / ETdEnd s fast
                         Source.Teardown called / the plugin's Teardown called (the stream was cancelled
@@ -40,7 +42,8 @@ Inductive event :=
 | ESrcErr (s : conn)
 | ETdBegin (s : conn)
 | ETdCancel (s : conn)
-| ETdEnd (s : conn) (fast : bool).
+| ETdEnd (s : conn) (fast : bool)
+| ESendHeld (s : conn) (n : nat).
 
 (* retries = deferredAckMaxRetries (>= 1); fixed = does flushNow hand a failed Set's error to that
    connector's callback (true) or the shadowed nil (false, the code as written: suspect S1) *)
@@ -66,11 +69,12 @@ Record sst := mkS {
   ph : nat;                 (* 0 running, 1 tearing down, 2 stream cancelled, 3 down *)
   tdacks : nat;             (* number of engine acks when Teardown began *)
   tdh : bool;               (* teardown began in a quiet, failure-free state *)
-  tdtx : nat                (* transactions begun since Teardown began *)
+  tdtx : nat;               (* transactions begun since Teardown began *)
+  hs : nat                  (* tag whose stream.Send was seen to have begun (parked in the plugin stream) *)
 }.
 
 Definition init_s (p0 : pos) : sst :=
-  mkS [] [] p0 0 true false 0 0 0 0 p0 0 0 0 0 0 false 0.
+  mkS [] [] p0 0 true false 0 0 0 0 p0 0 0 0 0 0 false 0 0.
 
 Record tst := mkT { src : conn -> sst; intx : nat; anyfail : bool }.
 
@@ -105,7 +109,7 @@ Definition apply_write (ok : bool) (x : sst) (w : write) : sst :=
       (if ok then Nat.max (attmax x) (w_tag w) else attmax x)
       (if ok && w_ok w then w_tag w else stag x)
       (if ok && w_ok w then w_pos w else spos x)
-      (dn x) (lastp x) (att x) (ph x) (tdacks x) (tdh x) (tdtx x).
+      (dn x) (lastp x) (att x) (ph x) (tdacks x) (tdh x) (tdtx x) (hs x).
 
 Definition apply_writes (ok : bool) (f : conn -> sst) (ws : list write) : conn -> sst :=
   fold_left (fun g w => upd g (w_s w) (apply_write ok (g (w_s w)) w)) ws f.
@@ -116,7 +120,7 @@ Definition bump_tdtx (f : conn -> sst) : conn -> sst :=
   fun s => let x := f s in
     mkS (acks x) (reads x) (lastread x) (nacked x) (eng x) (seenw x) (wn x) (okmax x) (attmax x)
         (stag x) (spos x) (dn x) (lastp x) (att x) (ph x) (tdacks x) (tdh x)
-        (if (ph x =? 1) || (ph x =? 2) then S (tdtx x) else tdtx x).
+        (if (ph x =? 1) || (ph x =? 2) then S (tdtx x) else tdtx x) (hs x).
 
 Definition track (c : cfg) (t : tst) (e : event) : tst :=
   match e with
@@ -124,14 +128,14 @@ Definition track (c : cfg) (t : tst) (e : event) : tst :=
       let x := src t s in
       set_src t s (mkS (acks x) (reads x ++ [r]) r (nacked x) (eng x && (lastread x <? r))
                        (seenw x) (wn x) (okmax x) (attmax x) (stag x) (spos x) (dn x) (lastp x) (att x)
-                       (ph x) (tdacks x) (tdh x) (tdtx x))
+                       (ph x) (tdacks x) (tdh x) (tdtx x) (hs x))
   | EAck s ks =>
       let x := src t s in
       let k := length ks in
       set_src t s (mkS (acks x ++ [ks]) (reads x) (lastread x) (nacked x + k)
                        (eng x && (0 <? k) && list_eqb_nat (firstn k (skipn (nacked x) (reads x))) ks)
                        (seenw x) (wn x) (okmax x) (attmax x) (stag x) (spos x) (dn x) (lastp x) (att x)
-                       (ph x) (tdacks x) (tdh x) (tdtx x))
+                       (ph x) (tdacks x) (tdh x) (tdtx x) (hs x))
   | ETxBegin => mkT (bump_tdtx (src t)) (S (intx t)) (anyfail t)
   | ETxFail => mkT (src t) (pred (intx t)) true
   | ECommit ws ok _ =>
@@ -139,29 +143,33 @@ Definition track (c : cfg) (t : tst) (e : event) : tst :=
   | EPAck s n ks =>
       let x := src t s in
       set_src t s (mkS (acks x) (reads x) (lastread x) (nacked x) (eng x) (seenw x) (wn x) (okmax x)
-                       (attmax x) (stag x) (spos x) n n 0 (ph x) (tdacks x) (tdh x) (tdtx x))
+                       (attmax x) (stag x) (spos x) n n 0 (ph x) (tdacks x) (tdh x) (tdtx x) (hs x))
   | ESendFail s n =>
       let x := src t s in
       let drop := S (att x) =? retries c in
       mkT (upd (src t) s
              (mkS (acks x) (reads x) (lastread x) (nacked x) (eng x) (seenw x) (wn x) (okmax x)
                   (attmax x) (stag x) (spos x) (if drop then n else dn x) (lastp x)
-                  (if drop then 0 else S (att x)) (ph x) (tdacks x) (tdh x) (tdtx x)))
+                  (if drop then 0 else S (att x)) (ph x) (tdacks x) (tdh x) (tdtx x) (hs x)))
           (intx t) true
   | ESrcErr _ => t
   | ETdBegin s =>
       let x := src t s in
       set_src t s (mkS (acks x) (reads x) (lastread x) (nacked x) (eng x) (seenw x) (wn x) (okmax x)
                        (attmax x) (stag x) (spos x) (dn x) (lastp x) (att x) 1 (length (acks x))
-                       (negb (anyfail t) && (intx t =? 0) && (okmax x <=? dn x)) 0)
+                       (negb (anyfail t) && (intx t =? 0) && (okmax x <=? Nat.max (dn x) (hs x))) 0 (hs x))
   | ETdCancel s =>
       let x := src t s in
       set_src t s (mkS (acks x) (reads x) (lastread x) (nacked x) (eng x) (seenw x) (wn x) (okmax x)
-                       (attmax x) (stag x) (spos x) (dn x) (lastp x) (att x) 2 (tdacks x) (tdh x) (tdtx x))
+                       (attmax x) (stag x) (spos x) (dn x) (lastp x) (att x) 2 (tdacks x) (tdh x) (tdtx x) (hs x))
   | ETdEnd s _ =>
       let x := src t s in
       set_src t s (mkS (acks x) (reads x) (lastread x) (nacked x) (eng x) (seenw x) (wn x) (okmax x)
-                       (attmax x) (stag x) (spos x) (dn x) (lastp x) (att x) 3 (tdacks x) (tdh x) (tdtx x))
+                       (attmax x) (stag x) (spos x) (dn x) (lastp x) (att x) 3 (tdacks x) (tdh x) (tdtx x) (hs x))
+  | ESendHeld s n =>
+      let x := src t s in
+      set_src t s (mkS (acks x) (reads x) (lastread x) (nacked x) (eng x) (seenw x) (wn x) (okmax x)
+                       (attmax x) (stag x) (spos x) (dn x) (lastp x) (att x) (ph x) (tdacks x) (tdh x) (tdtx x) n)
   end.
 
 Fixpoint runchk (c : cfg) (chk : tst -> event -> bool) (t : tst) (l : list event) : bool :=
@@ -173,7 +181,7 @@ Fixpoint runchk (c : cfg) (chk : tst -> event -> bool) (t : tst) (l : list event
 Definition state_after (c : cfg) (l : list event) : tst := fold_left (track c) l (init_t c).
 
 (* a teardown is "healthy" when it started in a quiet failure-free state with nothing durable left
-   undelivered, at most its own flush ran meanwhile, and nothing failed or is still in flight *)
+   undelivered (or at least handed to stream.Send: hs), at most its own flush ran meanwhile, and nothing failed or is still in flight *)
 Definition healthy (t : tst) (x : sst) : bool :=
   tdh x && negb (anyfail t) && (intx t =? 0) && (tdtx x <=? 1).
 
@@ -225,6 +233,9 @@ Definition acc_ok (c : cfg) (t : tst) (e : event) : bool :=
   | ETdEnd s fast =>
       let x := src t s in
       (s <? nsrc c) && (ph x =? 2) && (negb (healthy t x && fast) || (tdacks x <=? dn x))
+  | ESendHeld s n =>
+      let x := src t s in
+      (s <? nsrc c) && (ph x <=? 1) && (n =? S (dn x)) && (n <=? cov c x)
   end.
 
 Definition accepts (c : cfg) (l : list event) : bool := runchk c (acc_ok c) (init_t c) l.
